@@ -47,6 +47,7 @@ type summary struct {
 	NTHashes    []uint64          `json:"nt_hashes"`
 	StateHashes []uint64          `json:"state_hashes"`
 	Hazards     int               `json:"hazards"`
+	HazardRuns  []int             `json:"hazard_runs,omitempty"`
 	Samples     []json.RawMessage `json:"samples"`
 	Failures    []failure         `json:"failures"`
 	Classes     map[string]int    `json:"classes"`
@@ -244,6 +245,7 @@ func main() {
 		agg.Steps += s.Steps
 		agg.SimMs += s.SimMs
 		agg.Hazards += s.Hazards
+		agg.HazardRuns = append(agg.HazardRuns, s.HazardRuns...)
 		agg.Ops += s.Ops
 		agg.Infra = append(agg.Infra, s.Infra...)
 		for k, v := range s.Probes {
@@ -345,7 +347,7 @@ func main() {
 	}
 
 	if agg.Hazards > 0 {
-		fmt.Fprintf(os.Stderr, "WARNING: %d determinism hazards (goroutines the scheduler could not tell apart registered in one step, or engine calls by untracked goroutines); replays of such runs may differ\n", agg.Hazards)
+		fmt.Fprintf(os.Stderr, "WARNING: %d determinism hazards (goroutines the scheduler could not tell apart registered in one step, or engine calls by untracked goroutines); replays of such runs may differ; run indexes %v\n", agg.Hazards, agg.HazardRuns)
 	}
 	writeEvidence(*verif, prop, tier, seed, cfg, agg, len(sched), len(nt), len(states), wall, nviol, known)
 	fmt.Printf("%s %s: %d runs, %d steps, %.0f simulated s, %d distinct histories (%d non-trivial), %.1fs wall, %d violation(s)\n",
